@@ -284,6 +284,7 @@ def wrapper_delineate_area(tier):
     from hydrodiy.gis import grid as G
     from engine.contracts import Recorder, patched_module
     out = []
+    G_real = G.c_hydrodiy_gis
 
     def behaviour(c):
         # pretend the kernel found cells 0 and 1
@@ -308,6 +309,26 @@ def wrapper_delineate_area(tier):
                     all(len(c2.args[k]) == 5 for k in (4, 5, 6)), tag))
         out.append(('flowdir-passed', np.array_equal(c1.args[1], fd.data), tag))
         out.append(('area=non-negative-entries', list(ca.idxcells_area) == [0, 1], dict(tag, got=list(map(int, ca.idxcells_area)))))
+    # hole filling on square and non-square grids: the filled area contains the area, adds exactly the enclosed cells, all valid cells
+    for (nr, nc) in [(3, 3), (3, 5), (5, 3), (4, 6)]:
+        fd = G.Grid('fd', nc, nr, dtype=np.int64)
+        fd.data = np.full((nr, nc), 4, dtype=np.int64)
+        # a ring around cell (1, 1) plus, on wider grids, a tail to the right
+        ring = [r * nc + c for r in range(3) for c in range(3) if (r, c) != (1, 1)]
+        tail = [1 * nc + c for c in range(3, nc)]
+        cells = ring + tail
+
+        def beh(c, cells=cells):
+            c.raw_args[4][:len(cells)] = cells
+            return 0
+        ca = G.Catchment('c', fd)
+        rec = Recorder({'delineate_area': beh, 'cell2rowcol': lambda c: G_real.cell2rowcol(*c.raw_args)})
+        with patched_module(G, 'c_hydrodiy_gis', rec):
+            ca.delineate_area(0, nval=nr * nc + 2)
+        got = sorted(map(int, ca.idxcells_area_filled))
+        want = sorted(cells + [1 * nc + 1])
+        out.append(('filled-area=area+enclosed-cells', got == want, dict(nrows=nr, ncols=nc, got=got, want=want)))
+        out.append(('filled-area-contains-area', set(map(int, ca.idxcells_area)) <= set(got), dict(nrows=nr, ncols=nc)))
     return out
 
 
